@@ -821,6 +821,9 @@ func (s *State) diffRoutes(al, bl []*cmd, diff []edit.Range) {
 					// destination. Remove and add routes in one transaction.
 					s.addToplevel("no " + del.orig + "\n" + add)
 					del.needed = true
+					// Remove old route only once, if multiple routes
+					// to same destination are added.
+					delete(delDst, dstOfRoute(c))
 				} else {
 					s.addToplevel(add)
 				}
